@@ -326,6 +326,9 @@ def run_check(pid, cfg, tier, seed, jobs, replay=None):
     if replay is None and os.path.exists(evidence_path):
         os.remove(evidence_path)
     stages = cfg["runs"][tier]
+    if os.environ.get("VERIF_ONLY_MODE"):
+        # development aid (never set by the registered commands): run only the stages of one mode
+        stages = [s_ for s_ in stages if s_.get("mode", "") == os.environ["VERIF_ONLY_MODE"]]
     if replay:
         rj = json.load(open(replay))
         stages = [s for s in stages if s["flavour"] == rj["flavour"] and s.get("harness", cfg["harness"]) == rj.get("harness", cfg["harness"])
